@@ -484,7 +484,7 @@ PROPS = {
         rule='case = a program (Hypothesis recursive strategy): main protothread + up to 3 child threads forming a DAG; statements Emit, '
              'assignments to persistent (static) variables, if/else, bounded for/while (nesting <= 3, private loop variables), PT_YIELD, '
              'PT_WAIT, PT_WAIT_UNTIL with an observable self-advancing condition, PT_EXIT(_ON), PT_FAIL(_ON), PT_SPAWN followed by '
-             'Emit(PT_CHILD_OK() ? a : b), PT_SPAWN_AND_CHECK, PT_CALL; one blocking macro per source line, no switch. The program is '
+             'Emit(PT_CHILD_OK() ? a : b), PT_SPAWN_AND_CHECK, PT_CALL; single-statement if/else/for bodies are sometimes written without braces; one blocking macro per source line, no switch. The program is '
              'emitted as C over the real include/librfn/protothreads.h, compiled with gcc -O0 and driven until exit (optionally PT_INIT and '
              'a second round); its per-invocation trace (events, return code) must equal that of a reference interpreter over the same '
              'AST in which every thread is a Python generator. Non-trivial: a blocking point executed inside a loop inside a '
@@ -494,7 +494,7 @@ PROPS = {
                  quick=dict(params=dict(cases=4800), timeout=900), thorough=dict(params=dict(cases=120000), timeout=3400)),
         ],
         require={'blocking point inside a loop inside a conditional': 20, 'a child spawned more than once': 100, 'a failing child': 50,
-                 'child yield/wait relayed upward': 100, 'two rounds (PT_INIT after exit)': 100},
+                 'child yield/wait relayed upward': 100, 'two rounds (PT_INIT after exit)': 100, 'unbraced single-statement body': 100},
         assumptions=['the grammar covers compositions without goto, switch and do/while+continue; one PT_* blocking macro per source line',
                      'gcc -O0 of the sandbox compiles the macros; a different compiler is not examined'],
         technique='property-based testing of programs: Hypothesis-generated ASTs, compiled against the real macros, compared with a reference interpreter (differential)',
